@@ -20,6 +20,45 @@ Proof. congruence. Qed.
 Lemma Reqb_false a b : a <> b -> Reqb a b = false.
 Proof. intros H. unfold Reqb. destruct (Req_EM_T a b); [contradiction|reflexivity]. Qed.
 
+Lemma Reqb_true a b : a = b -> Reqb a b = true.
+Proof. intros H. unfold Reqb. destruct (Req_EM_T a b); [reflexivity|contradiction]. Qed.
+
+(* mass sum non-zero, or two massless (test) particles (then the code merges at the midpoint with the mean velocity) *)
+Definition mass_ok (a b : particle R) : Prop := pm a + pm b <> 0 \/ (pm a = 0 /\ pm b = 0).
+
+Theorem merge_conserves_gen t cb ps p1 p2 a b :
+  zth ps p1 = Some a -> zth ps p2 = Some b -> plc a <> t -> plc b <> t -> mass_ok a b ->
+  exists q,
+    merge RNum t cb ps p1 p2 = (upd ps (Z.to_nat (keep_ix p1 p2)) q, (if (p2 <? p1)%Z then 1 else 2)%Z) /\
+    pm q = pm a + pm b /\ mom q = add3 (mom a) (mom b) /\ mpos q = add3 (mpos a) (mpos b) /\
+    pr q = cb /\ plc q = t /\ phash q = phash (if (p2 <? p1)%Z then b else a) /\
+    (pm a = 0 -> pm b = 0 ->
+       px q = (px a + px b) / 2 /\ py q = (py a + py b) / 2 /\ pz q = (pz a + pz b) / 2 /\
+       pvx q = (pvx a + pvx b) / 2 /\ pvy q = (pvy a + pvy b) / 2 /\ pvz q = (pvz a + pvz b) / 2).
+Proof.
+  intros Z1 Z2 La Lb Hm. unfold merge, keep_ix. rewrite Z1, Z2.
+  cbn [neqb RNum]. rewrite (Reqb_false _ _ La), (Reqb_false _ _ Lb). cbn [orb].
+  destruct Hm as [Hm|[Ha Hb]].
+  - destruct (p2 <? p1)%Z.
+    + cbn [nadd nzero RNum]. rewrite (Reqb_false (pm b + pm a) 0) by lra.
+      eexists; (split; [reflexivity|]);
+        unfold mom, mpos, add3; cbn [setp pm pvx pvy pvz px py pz pr plc phash nadd nmul ndiv none RNum];
+        (split; [lra|]); (split; [apply tr3; field; lra|]); (split; [apply tr3; field; lra|]); repeat split; try reflexivity; exfalso; lra.
+    + cbn [nadd nzero RNum]. rewrite (Reqb_false (pm a + pm b) 0) by lra.
+      eexists; (split; [reflexivity|]);
+        unfold mom, mpos, add3; cbn [setp pm pvx pvy pvz px py pz pr plc phash nadd nmul ndiv none RNum];
+        (split; [lra|]); (split; [apply tr3; field; lra|]); (split; [apply tr3; field; lra|]); repeat split; try reflexivity; exfalso; lra.
+  - destruct (p2 <? p1)%Z.
+    + cbn [nadd nzero RNum]. rewrite (Reqb_true (pm b + pm a) 0) by lra.
+      eexists; (split; [reflexivity|]);
+        unfold mom, mpos, add3; cbn [setp pm pvx pvy pvz px py pz pr plc phash nadd nmul ndiv none RNum]; rewrite Ha, Hb;
+        (split; [lra|]); (split; [apply tr3; lra|]); (split; [apply tr3; lra|]); repeat split; try reflexivity; lra.
+    + cbn [nadd nzero RNum]. rewrite (Reqb_true (pm a + pm b) 0) by lra.
+      eexists; (split; [reflexivity|]);
+        unfold mom, mpos, add3; cbn [setp pm pvx pvy pvz px py pz pr plc phash nadd nmul ndiv none RNum]; rewrite Ha, Hb;
+        (split; [lra|]); (split; [apply tr3; lra|]); (split; [apply tr3; lra|]); repeat split; try reflexivity; lra.
+Qed.
+
 Theorem merge_conserves_thm t cb ps p1 p2 a b :
   zth ps p1 = Some a -> zth ps p2 = Some b -> plc a <> t -> plc b <> t -> pm a + pm b <> 0 ->
   exists q,
@@ -27,11 +66,9 @@ Theorem merge_conserves_thm t cb ps p1 p2 a b :
     pm q = pm a + pm b /\ mom q = add3 (mom a) (mom b) /\ mpos q = add3 (mpos a) (mpos b) /\
     pr q = cb /\ plc q = t /\ phash q = phash (if (p2 <? p1)%Z then b else a).
 Proof.
-  intros Z1 Z2 La Lb Hm. unfold merge, keep_ix. rewrite Z1, Z2.
-  cbn [neqb RNum]. rewrite (Reqb_false _ _ La), (Reqb_false _ _ Lb). cbn [orb].
-  destruct (p2 <? p1)%Z; eexists; (split; [reflexivity|]);
-    unfold mom, mpos, add3; cbn [setp pm pvx pvy pvz px py pz pr plc phash nadd nmul ndiv none RNum];
-    (split; [lra|]); (split; [apply tr3; field; lra|]); (split; [apply tr3; field; lra|]); repeat split; reflexivity.
+  intros Z1 Z2 La Lb Hm.
+  destruct (merge_conserves_gen t cb ps p1 p2 a b Z1 Z2 La Lb (or_introl Hm)) as (q & H1 & H2 & H3 & H4 & H5 & H6 & H7 & _).
+  exists q. repeat split; assumption.
 Qed.
 
 (* the outcome removes exactly one of the two indices: the larger one *)
@@ -61,8 +98,9 @@ Let vy21 := pvy p1 + gvy g - pvy p2.
 Let vz21 := pvz p1 + gvz g - pvz p2.
 Let vn := cp * vx21 + sp * (ct * vy21 + st * vz21).
 Let dv := hs_dvx2 RNum eps mcv p1 p2 x21 y21 z21 vn.
-Let A := pm p2 / (pm p1 + pm p2).
-Let B := pm p1 / (pm p1 + pm p2).
+(* p1pf and p2pf of the code: the mass fractions, or 1/2 each for two massless particles *)
+Let A := if negb (Reqb (pm p1 + pm p2) 0) then pm p2 / (pm p1 + pm p2) else 1 / 2.
+Let B := if negb (Reqb (pm p1 + pm p2) 0) then pm p1 / (pm p1 + pm p2) else 1 / 2.
 
 Hypothesis HS : hardsphere RNum t eps mcv st ct sp cp g p1 p2 = Some (q1, q2).
 
@@ -83,13 +121,22 @@ Proof.
   repeat split; try lra; reflexivity.
 Qed.
 
+Lemma AB_sum : A + B = 1.
+Proof.
+  unfold A, B, Reqb. destruct (Req_EM_T (pm p1 + pm p2) 0) as [E|E]; cbn [negb]; [lra|field; exact E].
+Qed.
+Lemma AB_frac : pm p1 + pm p2 <> 0 -> A = pm p2 / (pm p1 + pm p2) /\ B = pm p1 / (pm p1 + pm p2).
+Proof. intros H. unfold A, B. rewrite (Reqb_false _ _ H). cbn [negb]. split; reflexivity. Qed.
+Lemma AB_massless : pm p1 = 0 -> pm p2 = 0 -> A = 1 / 2 /\ B = 1 / 2.
+Proof. intros H1 H2. unfold A, B. rewrite (Reqb_true (pm p1 + pm p2) 0) by lra. cbn [negb]. split; reflexivity. Qed.
+
 Theorem hs_momentum : pm p1 + pm p2 <> 0 ->
   pm q1 * pvx q1 + pm q2 * pvx q2 = pm p1 * pvx p1 + pm p2 * pvx p2 /\
   pm q1 * pvy q1 + pm q2 * pvy q2 = pm p1 * pvy p1 + pm p2 * pvy p2 /\
   pm q1 * pvz q1 + pm q2 * pvz q2 = pm p1 * pvz p1 + pm p2 * pvz p2.
 Proof.
   intros Hm. destruct hs_shape as (_ & _ & X1 & Y1 & Z1 & X2 & Y2 & Z2 & M1 & M2 & _).
-  rewrite X1, Y1, Z1, X2, Y2, Z2, M1, M2. unfold A, B. repeat split; field; exact Hm.
+  destruct (AB_frac Hm) as [EA EB]. rewrite X1, Y1, Z1, X2, Y2, Z2, M1, M2, EA, EB. repeat split; field; exact Hm.
 Qed.
 
 Lemma dv_lower : - ((1 + eps) * vn) <= dv.
@@ -116,7 +163,7 @@ Proof.
   pose proof (n_unit H1 H2) as Hn.
   assert (Hke : ke q1 q2 = ke p1 p2 + pm p1 * pm p2 / (pm p1 + pm p2) * dv *
             (2 * vn + dv * (cp * cp + (ct * sp) * (ct * sp) + (st * sp) * (st * sp))) / 2).
-  { unfold ke. rewrite X1, Y1, Z1, X2, Y2, Z2, M1, M2. unfold A, B, vn, vx21, vy21, vz21. rewrite G1, G2, G3. field. exact Hm. }
+  { destruct (AB_frac Hm) as [EA EB]. unfold ke. rewrite X1, Y1, Z1, X2, Y2, Z2, M1, M2, EA, EB. unfold vn, vx21, vy21, vz21. rewrite G1, G2, G3. field. exact Hm. }
   rewrite Hke, Hn.
   assert (Hd : dv = - (2 * vn) \/ dv = 0).
   { unfold dv, hs_dvx2. rewrite He, Hc. cbn [nadd nsub nmul ndiv nneg nsqrt none nltb RNum]. unfold Rltb.
@@ -127,15 +174,16 @@ Qed.
 
 (* libm's atan2/sin/cos deliver spherical coordinates of the separation vector:
    (x21, y21, z21) = Rr (cos phi, sin phi cos theta, sin phi sin theta), Rr >= 0 *)
-Theorem hs_separating Rr :
+(* holds for every pair of masses, two massless particles included (the code then shares the impulse equally) *)
+Theorem hs_separating_any Rr :
   0 <= Rr -> x21 = Rr * cp -> y21 = Rr * (sp * ct) -> z21 = Rr * (sp * st) ->
-  ct * ct + st * st = 1 -> cp * cp + sp * sp = 1 -> 0 <= eps -> pm p1 + pm p2 <> 0 ->
+  ct * ct + st * st = 1 -> cp * cp + sp * sp = 1 -> 0 <= eps ->
   0 <= (pvx q1 + gvx g - pvx q2) * x21 + (pvy q1 + gvy g - pvy q2) * y21 + (pvz q1 + gvz g - pvz q2) * z21.
 Proof.
-  intros HR EX EY EZ H1 H2 He Hm.
+  intros HR EX EY EZ H1 H2 He.
   destruct hs_shape as (Happ & _ & X1 & Y1 & Z1 & X2 & Y2 & Z2 & _).
   pose proof (n_unit H1 H2) as Hn. pose proof dv_lower as Hd.
-  assert (HAB : A + B = 1) by (unfold A, B; field; exact Hm).
+  assert (HAB : A + B = 1) by apply AB_sum.
   assert (E1 : vx21 * x21 + vy21 * y21 + vz21 * z21 = Rr * vn) by (rewrite EX, EY, EZ; unfold vn; ring).
   assert (E2 : (pvx q1 + gvx g - pvx q2) * x21 + (pvy q1 + gvy g - pvy q2) * y21 + (pvz q1 + gvz g - pvz q2) * z21
                = Rr * vn + Rr * dv * (A + B) * (cp * cp + (ct * sp) * (ct * sp) + (st * sp) * (st * sp))).
@@ -146,6 +194,11 @@ Proof.
   assert (0 <= eps * (- (Rr * vn))) by (apply Rmult_le_pos; lra).
   nra.
 Qed.
+Theorem hs_separating Rr :
+  0 <= Rr -> x21 = Rr * cp -> y21 = Rr * (sp * ct) -> z21 = Rr * (sp * st) ->
+  ct * ct + st * st = 1 -> cp * cp + sp * sp = 1 -> 0 <= eps -> pm p1 + pm p2 <> 0 ->
+  0 <= (pvx q1 + gvx g - pvx q2) * x21 + (pvy q1 + gvy g - pvy q2) * y21 + (pvz q1 + gvz g - pvz q2) * z21.
+Proof. intros HR EX EY EZ H1 H2 He _. apply (hs_separating_any Rr); assumption. Qed.
 
 (* ---- general coefficient of restitution (no minimum_collision_velocity clamp: mcv = 0 and the normal component of the
    relative velocity is not positive, which the spherical-coordinate identities make equivalent to "approaching") *)
@@ -158,19 +211,23 @@ Proof.
 Qed.
 
 (* Newton's law of restitution: the normal component of the relative velocity is reversed and scaled by eps *)
-Theorem hs_restitution :
-  mcv = 0 -> vn <= 0 -> 0 <= 1 + eps -> ct * ct + st * st = 1 -> cp * cp + sp * sp = 1 -> pm p1 + pm p2 <> 0 ->
+Theorem hs_restitution_any :
+  mcv = 0 -> vn <= 0 -> 0 <= 1 + eps -> ct * ct + st * st = 1 -> cp * cp + sp * sp = 1 ->
   cp * (pvx q1 + gvx g - pvx q2) + sp * (ct * (pvy q1 + gvy g - pvy q2) + st * (pvz q1 + gvz g - pvz q2)) = - eps * vn.
 Proof.
-  intros Hc Hv He H1 H2 Hm.
+  intros Hc Hv He H1 H2.
   destruct hs_shape as (_ & _ & X1 & Y1 & Z1 & X2 & Y2 & Z2 & _).
   pose proof (n_unit H1 H2) as Hn. pose proof (dv_unclamped Hc Hv He) as Hd.
-  assert (HAB : A + B = 1) by (unfold A, B; field; exact Hm).
+  assert (HAB : A + B = 1) by apply AB_sum.
   assert (E : cp * (pvx q1 + gvx g - pvx q2) + sp * (ct * (pvy q1 + gvy g - pvy q2) + st * (pvz q1 + gvz g - pvz q2))
               = vn + dv * (A + B) * (cp * cp + (ct * sp) * (ct * sp) + (st * sp) * (st * sp))).
   { rewrite X1, Y1, Z1, X2, Y2, Z2. unfold vn, vx21, vy21, vz21. ring. }
   rewrite E, HAB, Hn, Hd. ring.
 Qed.
+Theorem hs_restitution :
+  mcv = 0 -> vn <= 0 -> 0 <= 1 + eps -> ct * ct + st * st = 1 -> cp * cp + sp * sp = 1 -> pm p1 + pm p2 <> 0 ->
+  cp * (pvx q1 + gvx g - pvx q2) + sp * (ct * (pvy q1 + gvy g - pvy q2) + st * (pvz q1 + gvz g - pvz q2)) = - eps * vn.
+Proof. intros Hc Hv He H1 H2 _. apply hs_restitution_any; assumption. Qed.
 
 (* kinetic energy: loses exactly (1 - eps^2) of the energy of the normal relative motion (reduced mass mu) *)
 Theorem hs_energy :
@@ -183,8 +240,17 @@ Proof.
   pose proof (n_unit H1 H2) as Hn. pose proof (dv_unclamped Hc Hv He) as Hd.
   assert (Hke : ke q1 q2 = ke p1 p2 + pm p1 * pm p2 / (pm p1 + pm p2) * dv *
             (2 * vn + dv * (cp * cp + (ct * sp) * (ct * sp) + (st * sp) * (st * sp))) / 2).
-  { unfold ke. rewrite X1, Y1, Z1, X2, Y2, Z2, M1, M2. unfold A, B, vn, vx21, vy21, vz21. rewrite G1, G2, G3. field. exact Hm. }
+  { destruct (AB_frac Hm) as [EA EB]. unfold ke. rewrite X1, Y1, Z1, X2, Y2, Z2, M1, M2, EA, EB. unfold vn, vx21, vy21, vz21. rewrite G1, G2, G3. field. exact Hm. }
   rewrite Hke, Hn, Hd. field. exact Hm.
+Qed.
+
+(* two massless particles: each receives half of the velocity change (finite), masses stay 0 *)
+Theorem hs_massless : pm p1 = 0 -> pm p2 = 0 ->
+  pvx q1 - pvx p1 = - (pvx q2 - pvx p2) /\ pvy q1 - pvy p1 = - (pvy q2 - pvy p2) /\ pvz q1 - pvz p1 = - (pvz q2 - pvz p2) /\
+  pvx q1 = pvx p1 + cp * dv / 2 /\ pm q1 = 0 /\ pm q2 = 0.
+Proof.
+  intros H1 H2. destruct hs_shape as (_ & _ & X1 & Y1 & Z1 & X2 & Y2 & Z2 & M1 & M2 & _).
+  destruct (AB_massless H1 H2) as [EA EB]. rewrite X1, Y1, Z1, X2, Y2, Z2, M1, M2, EA, EB. repeat split; lra.
 Qed.
 End HS.
 
